@@ -18,6 +18,7 @@ type aeFinding struct {
 }
 
 type aeResult struct {
+	loopSums   map[string]*loopSummary
 	sig        map[string]map[string]bool // law -> term keys that differ between individuals in failing worlds
 	nfail      map[string]int
 	root       *ssa.Function
@@ -351,6 +352,19 @@ func (c *aeCtx) analyseLoop(root *ssa.Function, fn *ssa.Function, l *loop) *loop
 		return sum
 	}
 	problem := func(w *world, law, msg string) {
+		if sum.lawSig == nil {
+			sum.lawSig = map[string]map[string]bool{}
+			sum.lawN = map[string]int{}
+			sum.lawFirst = map[string]string{}
+		}
+		if sum.lawSig[law] == nil {
+			sum.lawSig[law] = map[string]bool{}
+			sum.lawFirst[law] = fmt.Sprintf("%s [world: %s]", msg, w.describe(c.pools, c.terms))
+		}
+		sum.lawN[law]++
+		for _, k := range c.untiedKeys(w) {
+			sum.lawSig[law][k] = true
+		}
 		if len(sum.problems) < 6 {
 			sum.problems = append(sum.problems, fmt.Sprintf("%s: %s [world: %s]", law, msg, w.describe(c.pools, c.terms)))
 		}
@@ -580,7 +594,9 @@ func (c *aeCtx) analyse(root *ssa.Function) *aeResult {
 	for k := range used {
 		res.assumed[k] = c.assumed[k]
 	}
+	res.loopSums = map[string]*loopSummary{}
 	for id, s := range c.lsum {
+		res.loopSums[id] = s
 		if s.ok && len(s.problems) == 0 {
 			res.loopsOK = append(res.loopsOK, id)
 		} else if len(s.problems) > 0 {
